@@ -127,6 +127,20 @@ func vSkeleton(id int) []string {
 			ks = append(ks, p+"a", p+"b")
 		}
 		return vSorted(ks)
+	case 5: // 20 groups x {a, aa}: short-node table whose bitmaps contain the end-of-key label
+		var ks []string
+		for i := 0; i < 20; i++ {
+			p := string([]byte{byte('0' + i/16), byte('a' + i%16)})
+			ks = append(ks, p+"a", p+"aa")
+		}
+		return vSorted(ks)
+	case 6: // 40 groups x {a,b,c}: ShortSize 3
+		var ks []string
+		for i := 0; i < 40; i++ {
+			p := string([]byte{byte('0' + i/16), byte('a' + i%16)})
+			ks = append(ks, p+"a", p+"b", p+"c")
+		}
+		return vSorted(ks)
 	}
 	panic("unknown skeleton")
 }
